@@ -182,17 +182,16 @@ void ::sqf::parser::sqf::parser::to_assembly(std::string_view contents, const ::
     case bison::astkind::CODE:
     {
         std::vector<::sqf::runtime::instruction::sptr> tmp_set;
-        bison::astnode previous_node;
         for (size_t i = 0; i < node.children.size(); i++)
         {
             if (i != 0)
             {
+                const bison::astnode& previous_node = node.children[i - 1]; // a reference: copying it copies its whole subtree
                 auto inst = std::make_shared<::sqf::opcodes::end_statement>();
                 inst->diag_info({ previous_node.token.line, previous_node.token.column + previous_node.token.contents.length(), previous_node.token.offset, { *previous_node.token.path, {} }, create_code_segment(contents, previous_node.token.offset, previous_node.token.contents.length()) });
                 tmp_set.push_back(inst);
             }
-            previous_node = node.children[i];
-            to_assembly(contents, previous_node, tmp_set);
+            to_assembly(contents, node.children[i], tmp_set);
         }
         auto inst_set = ::sqf::runtime::instruction_set(tmp_set);
         auto inst = std::make_shared<::sqf::opcodes::push>(::sqf::runtime::value(std::make_shared<::sqf::types::d_code>(inst_set)));
@@ -245,17 +244,16 @@ void ::sqf::parser::sqf::parser::to_assembly(std::string_view contents, const ::
     break;
     default:
     {
-        bison::astnode previous_node;
         for (size_t i = 0; i < node.children.size(); i++)
         {
             if (i != 0)
             {
+                const bison::astnode& previous_node = node.children[i - 1];
                 auto inst = std::make_shared<::sqf::opcodes::end_statement>();
                 inst->diag_info({ previous_node.token.line, previous_node.token.column + previous_node.token.contents.length(), previous_node.token.offset, { *previous_node.token.path, {} }, create_code_segment(contents, previous_node.token.offset, previous_node.token.contents.length()) });
                 set.push_back(inst);
             }
-            previous_node = node.children[i];
-            to_assembly(contents, previous_node, set);
+            to_assembly(contents, node.children[i], set);
         }
     }
     }
